@@ -663,8 +663,9 @@ Section InitProofs.
     notnull v = true -> covered axs v -> covered (fold_left step ms axs) v.
   Proof.
     induction ms as [|m ms IH]; intros axs v Hpd Hfr Hcd Hl Ho Hnn Hc; [exact Hc|].
-    cbn [fold_left]. destruct Hpd as (Hd & Hpd). inversion Hfr as [|? ? Hf Hfr']; subst.
-    inversion Ho as [|? ? Hom Ho']; subst. apply IH; try assumption.
+    cbn [fold_left]. destruct Hpd as (Hd & Hpd).
+    pose proof (Forall_inv Hfr) as Hf. pose proof (Forall_inv_tail Hfr) as Hfr'.
+    pose proof (Forall_inv Ho) as Hom. pose proof (Forall_inv_tail Ho) as Ho'. apply IH; try assumption.
     - apply Forall_forall. intros m' Hm' d Hd'. rewrite Forall_forall in Hfr'. rewrite Forall_forall in Hd.
       apply step_single; [|apply (Hfr' m' Hm' d Hd')]. intros Hin. exact (Hd m' Hm' d Hin Hd').
     - apply step_covers; assumption.
@@ -719,8 +720,9 @@ Section InitProofs.
     doms_nodup (fold_left step ms axs).
   Proof.
     induction ms as [|m ms IH]; intros axs Hpd Hfr Hoo Hll Hnd; [exact Hnd|].
-    cbn [fold_left]. destruct Hpd as (Hd & Hpd). inversion Hfr as [|? ? Hf Hfr']; subst.
-    inversion Hoo as [|? ? Ho Hoo']; subst.
+    cbn [fold_left]. destruct Hpd as (Hd & Hpd).
+    pose proof (Forall_inv Hfr) as Hf. pose proof (Forall_inv_tail Hfr) as Hfr'.
+    pose proof (Forall_inv Hoo) as Ho. pose proof (Forall_inv_tail Hoo) as Hoo'.
     destruct (step_doms_ok axs m Hf Ho Hll Hnd) as (S1 & S2). apply IH; try assumption.
     apply Forall_forall. intros m' Hm' d Hd'. rewrite Forall_forall in Hfr'. rewrite Forall_forall in Hd.
     apply step_single; [|apply (Hfr' m' Hm' d Hd')]. intros Hin. exact (Hd m' Hm' d Hin Hd').
@@ -799,4 +801,15 @@ Theorem final_covered n notnull shape ms v :
 Proof.
   intros Hwf Hl Hb Ho Hnn. pose proof (wf_fresh n shape ms Hwf) as Hfr. destruct Hwf as (Hpd & _ & _).
   apply fold_covered; try assumption; [apply init_covers|apply init_covered; assumption].
+Qed.
+
+(* the properties actually processed by a call, in the code's fixed order *)
+Definition processed (s : spec) : list mprop := sorted_maps (normalize (s_maps s)).
+
+Lemma c_iter_in_axes s a : In a (c_iter (ctx_of s)) -> In a (axes_of s).
+Proof.
+  unfold ctx_of. cbn [c_iter]. intros H. apply in_app_or in H. destruct H as [H|H].
+  - apply in_flat_map in H. destruct H as (ds & _ & H). apply filter_In in H. destruct H as (H & _).
+    apply filter_In in H. tauto.
+  - apply filter_In in H. destruct H as (H & _). apply filter_In in H. tauto.
 Qed.
